@@ -188,45 +188,57 @@ func execRun(r run) map[string]any {
 		t := hs[a.H-1]
 		sp := spongeOf(t)
 		before := snapshot(sp)
-		o := map[string]any{"err": false, "out": 0, "pre": 0, "olen": 0, "st2": 0}
-		switch a.Op {
-		case "ds":
-			t.AppendDomainSeparator(string(toBytes(a.Label)))
-		case "ab":
-			ms := make([][]byte, len(a.Msgs))
-			for i, m := range a.Msgs {
-				ms[i] = toBytes(m)
-			}
-			t.AppendBytes(string(toBytes(a.Label)), ms...)
-		case "happ":
-			ms := make([]bl, len(a.Msgs))
-			for i, m := range a.Msgs {
-				ms[i] = bl(toBytes(m))
-			}
-			transcripts.Append(t, string(toBytes(a.Label)), ms...)
-		case "ex":
-			out, err := t.ExtractBytes(string(toBytes(a.Label)), uint(a.N))
-			o["err"] = err != nil
-			if err == nil {
-				o["olen"] = len(out)
-				o["out"] = toks.tok("o", out)
-				if len(out) >= preLen {
-					o["pre"] = toks.tok("p", out[:preLen])
+		o := map[string]any{"err": false, "out": 0, "pre": 0, "olen": 0, "st2": 0, "panic": false}
+		func() {
+			defer func() {
+				if r := recover(); r != nil { // a panic of the real code is an observation, not a driver failure
+					o["panic"] = true
 				}
+			}()
+			switch a.Op {
+			case "ds":
+				t.AppendDomainSeparator(string(toBytes(a.Label)))
+			case "ab":
+				ms := make([][]byte, len(a.Msgs))
+				for i, m := range a.Msgs {
+					ms[i] = toBytes(m)
+				}
+				t.AppendBytes(string(toBytes(a.Label)), ms...)
+			case "happ":
+				ms := make([]bl, len(a.Msgs))
+				for i, m := range a.Msgs {
+					ms[i] = bl(toBytes(m))
+				}
+				transcripts.Append(t, string(toBytes(a.Label)), ms...)
+			case "ex":
+				out, err := t.ExtractBytes(string(toBytes(a.Label)), uint(a.N))
+				o["err"] = err != nil
+				if err == nil {
+					o["olen"] = len(out)
+					o["out"] = toks.tok("o", out)
+					if len(out) >= preLen {
+						o["pre"] = toks.tok("p", out[:preLen])
+					}
+				}
+			case "hext":
+				x, err := transcripts.Extract(t, string(toBytes(a.Label)), k256.NewScalarField())
+				o["err"] = err != nil
+				if err == nil {
+					o["olen"] = a.N
+					o["out"] = toks.tok("x", x.Bytes())
+				}
+			case "clone":
+				c := t.Clone()
+				hs = append(hs, c)
+				o["st2"] = toks.tok("s", snapshot(spongeOf(c)))
+			default:
+				fail("unknown op " + a.Op)
 			}
-		case "hext":
-			x, err := transcripts.Extract(t, string(toBytes(a.Label)), k256.NewScalarField())
-			o["err"] = err != nil
-			if err == nil {
-				o["olen"] = a.N
-				o["out"] = toks.tok("x", x.Bytes())
-			}
-		case "clone":
-			c := t.Clone()
-			hs = append(hs, c)
-			o["st2"] = toks.tok("s", snapshot(spongeOf(c)))
-		default:
-			fail("unknown op " + a.Op)
+		}()
+		if o["panic"].(bool) {
+			o["d"], o["dok"], o["st"] = []int{}, false, 0
+			obs = append(obs, o)
+			return map[string]any{"name": r.Name, "prog": r.Prog, "obs": obs, "fin": []map[string]any{}, "again": [][]int{}}
 		}
 		after := snapshot(sp)
 		d, ok := absorbedBetween(before, after)
